@@ -1,4 +1,5 @@
 import Minimq.Proofs.WireSess
+import Minimq.Proofs.Release
 /-
 The transmission log (ghost field `World.log`) against the retained queue: on one connection the
 retained packets are handed to the transport in the order of their serial numbers, each at most once,
@@ -17,7 +18,7 @@ def LogEntry.ser? (f : LogEntry) : Option Nat :=
 /-- The serials of the retained packets in a log, in the order they were written. -/
 def sers (l : List LogEntry) : List Nat := l.filterMap LogEntry.ser?
 
-theorem sers_append (l l' : List LogEntry) : sers (l ++ l') = sers l ++ sers l' := by
+theorem sers_append (l l' : List LogEntry) : Minimq.sers (l ++ l') = Minimq.sers l ++ sers l' := by
   simp [sers, List.filterMap_append]
 
 def SendState.isWrite : SendState → Bool
@@ -58,31 +59,31 @@ theorem rows_congr {o o' : Outbound} (hm : o'.meta = o.meta) (hc : o'.contents =
   rows_of_meta_contents _ _ _ _ hm hc
 
 /-- The log `l` of the transport with ordinal `k` agrees with the retained queue. -/
-structure Outbound.Log (o : Outbound) (k : Nat) (l : List LogEntry) : Prop where
+structure Outbound.PLog (o : Outbound) (k : Nat) (l : List LogEntry) : Prop where
   /-- Retained packets went out in the order of their serials, none twice. -/
-  sorted : (sers l).Pairwise (· < ·)
-  below : ∀ s ∈ sers l, s < o.nextSer
+  sorted : (Minimq.sers l).Pairwise (· < ·)
+  below : ∀ s ∈ Minimq.sers l, s < o.nextSer
   /-- A packet recorded as written (waiting for its flush, or sent) is in the log, with the bytes that are in the arena. -/
   written : ∀ r ∈ o.rows, (r.state = .sent ∨ r.state = .flush) → (⟨k, .retained r.ser r.id, r.bytes⟩ : LogEntry) ∈ l
   /-- A packet not yet completely written is not in the log, and everything in the log is older. -/
-  unwritten : ∀ r ∈ o.rows, r.state.isWrite = true → ∀ s ∈ sers l, s < r.ser
+  unwritten : ∀ r ∈ o.rows, r.state.isWrite = true → ∀ s ∈ Minimq.sers l, s < r.ser
   /-- Behind a packet that has been started, nothing has been started: everything in front of a
   started packet is sent. -/
   ord : (o.rows.map (·.state)).Pairwise (fun a b => b ≠ .write 0 → a = .sent)
 
-theorem Outbound.Log.congr {o o' : Outbound} {k : Nat} {l : List LogEntry} (h : o.Log k l) (hr : o'.rows = o.rows)
-    (hn : o'.nextSer = o.nextSer) : o'.Log k l :=
+theorem Outbound.PLog.congr {o o' : Outbound} {k : Nat} {l : List LogEntry} (h : o.PLog k l) (hr : o'.rows = o.rows)
+    (hn : o'.nextSer = o.nextSer) : o'.PLog k l :=
   ⟨h.sorted, by rw [hn]; exact h.below, by rw [hr]; exact h.written, by rw [hr]; exact h.unwritten, by rw [hr]; exact h.ord⟩
 
-theorem Outbound.Log.sublist {o o' : Outbound} {k : Nat} {l : List LogEntry} (h : o.Log k l) (hr : o'.rows.Sublist o.rows)
-    (hn : o.nextSer ≤ o'.nextSer) : o'.Log k l :=
+theorem Outbound.PLog.sublist {o o' : Outbound} {k : Nat} {l : List LogEntry} (h : o.PLog k l) (hr : o'.rows.Sublist o.rows)
+    (hn : o.nextSer ≤ o'.nextSer) : o'.PLog k l :=
   ⟨h.sorted, fun s hs => Nat.lt_of_lt_of_le (h.below s hs) hn, fun r hm => h.written r (hr.subset hm),
    fun r hm => h.unwritten r (hr.subset hm), h.ord.sublist (hr.map _)⟩
 
 /-- Appending a log entry that is not a retained packet. -/
-theorem Outbound.Log.append_other {o : Outbound} {k : Nat} {l : List LogEntry} (h : o.Log k l) (f : LogEntry)
-    (hf : f.ser? = none) : o.Log k (l ++ [f]) := by
-  have hs : sers (l ++ [f]) = sers l := by simp [sers_append, sers, hf]
+theorem Outbound.PLog.append_other {o : Outbound} {k : Nat} {l : List LogEntry} (h : o.PLog k l) (f : LogEntry)
+    (hf : f.ser? = none) : o.PLog k (l ++ [f]) := by
+  have hs : Minimq.sers (l ++ [f]) = Minimq.sers l := by simp [sers_append, Minimq.sers, hf]
   exact ⟨by rw [hs]; exact h.sorted, by rw [hs]; exact h.below,
     fun r hm hst => List.mem_append_left _ (h.written r hm hst), by rw [hs]; exact h.unwritten, h.ord⟩
 
@@ -120,9 +121,9 @@ theorem rows_retainPacket (o o' : Outbound) (id off len : Nat) (h : o.ArenaInv)
   simp only [Outbound.rows, h1, rb, List.map_append, List.map_cons, List.map_nil, rowOf]
 
 /-- A new retained packet gets a serial above everything in the log. -/
-theorem Outbound.Log.retain {o o' : Outbound} {k : Nat} {l : List LogEntry} (h : o.Log k l) (r : Row)
+theorem Outbound.PLog.retain {o o' : Outbound} {k : Nat} {l : List LogEntry} (h : o.PLog k l) (r : Row)
     (hrows : o'.rows = o.rows ++ [r]) (hser : r.ser = o.nextSer) (hst : r.state = .write 0) (hn : o'.nextSer = o.nextSer + 1) :
-    o'.Log k l := by
+    o'.PLog k l := by
   refine ⟨h.sorted, fun s hs => by rw [hn]; exact Nat.lt_succ_of_lt (h.below s hs), ?_, ?_, ?_⟩
   · intro x hx hstx
     rw [hrows] at hx
@@ -150,7 +151,7 @@ theorem rows_split (buf : Bytes) (pre : List RetainedPacket) (e : RetainedPacket
 
 /-- What the entry in progress looks like in the queue: everything in front of it is sent, everything
 behind it still waits for its first byte. -/
-theorem Outbound.Log.post_fresh {o : Outbound} {k : Nat} {l : List LogEntry} (h : o.Log k l)
+theorem Outbound.PLog.post_fresh {o : Outbound} {k : Nat} {l : List LogEntry} (h : o.PLog k l)
     {pre post : List RetainedPacket} {e : RetainedPacket} (hr : o.retained = pre ++ e :: post) (hne : e.state ≠ .sent) :
     ∀ x ∈ post, x.state = .write 0 := by
   intro x hx
@@ -163,11 +164,11 @@ theorem Outbound.Log.post_fresh {o : Outbound} {k : Nat} {l : List LogEntry} (h 
   · exact absurd (this hx0) hne
 
 /-- The state of the current retained entry changes from one unfinished state to another. -/
-theorem Outbound.Log.setState_write {o o' : Outbound} {k : Nat} {l : List LogEntry} (h : o.Log k l)
+theorem Outbound.PLog.setState_write {o o' : Outbound} {k : Nat} {l : List LogEntry} (h : o.PLog k l)
     {pre post : List RetainedPacket} {e : RetainedPacket} (hr : o.retained = pre ++ e :: post)
     (hsent : ∀ x ∈ pre, x.state = .sent) (hw : e.state.isWrite = true) (n : Nat)
     (hr' : o'.retained = pre ++ { e with state := .write n } :: post) (hb : o'.buf = o.buf) (hn : o'.nextSer = o.nextSer) :
-    o'.Log k l := by
+    o'.PLog k l := by
   have hpost := h.post_fresh hr (by intro hs; rw [hs] at hw; cases hw)
   have hrows : o.rows = pre.map (rowOf o.buf) ++ rowOf o.buf e :: post.map (rowOf o.buf) := by
     simp only [Outbound.rows, hr]; exact rows_split _ _ _ _
@@ -203,19 +204,19 @@ theorem Outbound.Log.setState_write {o o' : Outbound} {k : Nat} {l : List LogEnt
       exact hsent x hx
 
 /-- The last byte of the current retained entry has been accepted: it goes into the log. -/
-theorem Outbound.Log.setState_flush {o o' : Outbound} {k : Nat} {l : List LogEntry} (h : o.Log k l) (hser : o.SerInv)
+theorem Outbound.PLog.setState_flush {o o' : Outbound} {k : Nat} {l : List LogEntry} (h : o.PLog k l) (hser : o.SerInv)
     {pre post : List RetainedPacket} {e : RetainedPacket} (hr : o.retained = pre ++ e :: post)
     (hsent : ∀ x ∈ pre, x.state = .sent) (hw : e.state.isWrite = true)
     (hr' : o'.retained = pre ++ { e with state := .flush } :: post) (hb : o'.buf = o.buf) (hn : o'.nextSer = o.nextSer) :
-    o'.Log k (l ++ [⟨k, .retained e.ser e.id, slice o.buf e.offset e.len⟩]) := by
+    o'.PLog k (l ++ [⟨k, .retained e.ser e.id, slice o.buf e.offset e.len⟩]) := by
   have hpost := h.post_fresh hr (by intro hs; rw [hs] at hw; cases hw)
   have hrows : o.rows = pre.map (rowOf o.buf) ++ rowOf o.buf e :: post.map (rowOf o.buf) := by
     simp only [Outbound.rows, hr]; exact rows_split _ _ _ _
   have hrows' : o'.rows = pre.map (rowOf o.buf) ++ rowOf o.buf { e with state := .flush } :: post.map (rowOf o.buf) := by
     simp only [Outbound.rows, hr', hb]; exact rows_split _ _ _ _
-  have hs : sers (l ++ [(⟨k, .retained e.ser e.id, slice o.buf e.offset e.len⟩ : LogEntry)]) = sers l ++ [e.ser] := by
-    simp [sers_append, sers, LogEntry.ser?]
-  have hbelow_e : ∀ s ∈ sers l, s < e.ser := h.unwritten (rowOf o.buf e) (by rw [hrows]; simp) hw
+  have hs : Minimq.sers (l ++ [(⟨k, .retained e.ser e.id, slice o.buf e.offset e.len⟩ : LogEntry)]) = Minimq.sers l ++ [e.ser] := by
+    simp [sers_append, Minimq.sers, LogEntry.ser?]
+  have hbelow_e : ∀ s ∈ Minimq.sers l, s < e.ser := h.unwritten (rowOf o.buf e) (by rw [hrows]; simp) hw
   have hinc := hser.inc
   rw [hr, List.map_append, List.map_cons, List.pairwise_append] at hinc
   have hpost_ser : ∀ x ∈ post, e.ser < x.ser := fun x hx =>
@@ -268,11 +269,11 @@ theorem Outbound.Log.setState_flush {o o' : Outbound} {k : Nat} {l : List LogEnt
       exact hsent x hx
 
 /-- The flush of the current retained entry completed. -/
-theorem Outbound.Log.setState_sent {o o' : Outbound} {k : Nat} {l : List LogEntry} (h : o.Log k l)
+theorem Outbound.PLog.setState_sent {o o' : Outbound} {k : Nat} {l : List LogEntry} (h : o.PLog k l)
     {pre post : List RetainedPacket} {e : RetainedPacket} (hr : o.retained = pre ++ e :: post)
     (hsent : ∀ x ∈ pre, x.state = .sent) (hf : e.state = .flush)
     (hr' : o'.retained = pre ++ { e with state := .sent } :: post) (hb : o'.buf = o.buf) (hn : o'.nextSer = o.nextSer) :
-    o'.Log k l := by
+    o'.PLog k l := by
   have hrows : o.rows = pre.map (rowOf o.buf) ++ rowOf o.buf e :: post.map (rowOf o.buf) := by
     simp only [Outbound.rows, hr]; exact rows_split _ _ _ _
   have hrows' : o'.rows = pre.map (rowOf o.buf) ++ rowOf o.buf { e with state := .sent } :: post.map (rowOf o.buf) := by
@@ -303,8 +304,8 @@ theorem Outbound.Log.setState_sent {o o' : Outbound} {k : Nat} {l : List LogEntr
     exact hsent x hx
 
 /-- With every entry waiting for its first byte, the empty log agrees with the queue. -/
-theorem Log_of_allFresh (o : Outbound) (k : Nat) (h : ∀ e ∈ o.retained, e.state = .write 0) : o.Log k [] := by
-  refine ⟨by simp [sers], by simp [sers], ?_, by simp [sers], ?_⟩
+theorem PLog_of_allFresh (o : Outbound) (k : Nat) (h : ∀ e ∈ o.retained, e.state = .write 0) : o.PLog k [] := by
+  refine ⟨by simp [Minimq.sers], by simp [Minimq.sers], ?_, by simp [Minimq.sers], ?_⟩
   · intro r hm hst
     simp only [Outbound.rows, List.mem_map] at hm
     obtain ⟨e, he, rfl⟩ := hm
@@ -334,7 +335,7 @@ def Outbound.done (o : Outbound) (k : Nat) (pkt : Flushed) : LogEntry :=
   | .control a => { net := k, tag := .control a, bytes := ((encodeControl a).toOption).getD [] }
   | .release id =>
     (match o.release.find? (fun e => e.id == id) with
-     | some e => { net := k, tag := .release id e.rc, bytes := ((encodePubrel id e.rc).toOption).getD [] }
+     | some e => { net := k, tag := .release e.rser e.pser id e.rc, bytes := ((encodePubrel id e.rc).toOption).getD [] }
      | none => { net := k, tag := .unknown, bytes := [] })
   | .retained id =>
     (match o.retained.find? (fun e => e.id == id) with
@@ -348,7 +349,8 @@ theorem doneFrame_eq (w : World) (pkt : Flushed) : w.doneFrame pkt = w.sess.data
 /-- The tag a step's entry gets in the log. -/
 def Outbound.stepTag (o : Outbound) : Outbound.Step → Tag
   | .control a _ => .control a
-  | .release id rc _ => .release id rc
+  | .release id rc _ => .release (((o.release.find? (fun e => e.id == id)).map (·.rser)).getD 0)
+      (((o.release.find? (fun e => e.id == id)).map (·.pser)).getD 0) id rc
   | .retained id _ _ _ => .retained (((o.retained.find? (fun e => e.id == id)).map (·.ser)).getD 0) id
 
 /-- For the current entry the recorded bytes are the bytes `perform_outbound_step` writes. -/
@@ -358,9 +360,9 @@ theorem done_of_slot {o : Outbound} {step : Outbound.Step} {bytes : Bytes} (k : 
   | control a st rest hc hrest hrel hret =>
     simp only [Outbound.StepBytes] at hb
     simp [Outbound.done, Outbound.Step.flushed, Outbound.stepTag, hb, Except.toOption]
-  | release pre id rc st post hr hpre hpost hctl hret hsent =>
+  | release pre id rc st rs ps post hr hpre hpost hctl hret hsent =>
     simp only [Outbound.StepBytes] at hb
-    have hf : o.release.find? (fun e => e.id == id) = some ⟨id, rc, st⟩ := by
+    have hf : o.release.find? (fun e => e.id == id) = some ⟨id, rc, st, rs, ps⟩ := by
       rw [hr]; exact find?_hit _ pre _ post (fun x hx => by simp [(hpre x hx).1]) (by simp)
     simp [Outbound.done, Outbound.Step.flushed, Outbound.stepTag, hf, hb, Except.toOption]
   | retained pre e post hr hpre hpost hctl hrel hsent =>
@@ -385,16 +387,16 @@ theorem stepTag_retained {o : Outbound} {pre post : List RetainedPacket} {e : Re
 
 /-- `set_written` on the current entry: the log stays in agreement with the queue; when the entry is
 completely written, with the entry recorded. -/
-theorem Outbound.Log.setWritten {o : Outbound} {k : Nat} {l : List LogEntry} {step : Outbound.Step} {j : Nat}
-    (h : o.Log k l) (hser : o.SerInv) (hs : o.Slot step) (hst : step.state = .write j) (wr len : Nat) :
-    (wr < len → (o.setWritten step.flushed wr len).Log k l) ∧
-    (len ≤ wr → (o.setWritten step.flushed wr len).Log k (l ++ [o.done k step.flushed])) := by
+theorem Outbound.PLog.setWritten {o : Outbound} {k : Nat} {l : List LogEntry} {step : Outbound.Step} {j : Nat}
+    (h : o.PLog k l) (hser : o.SerInv) (hs : o.Slot step) (hst : step.state = .write j) (wr len : Nat) :
+    (wr < len → (o.setWritten step.flushed wr len).PLog k l) ∧
+    (len ≤ wr → (o.setWritten step.flushed wr len).PLog k (l ++ [o.done k step.flushed])) := by
   cases hs with
   | control a st rest hc hrest hrel hret =>
-    have hsame : (o.setWritten (Outbound.Step.flushed (.control a st)) wr len).Log k l := h.congr rfl rfl
+    have hsame : (o.setWritten (Outbound.Step.flushed (.control a st)) wr len).PLog k l := h.congr rfl rfl
     exact ⟨fun _ => hsame, fun _ => hsame.append_other _ (by simp [Outbound.done, Outbound.Step.flushed, LogEntry.ser?])⟩
-  | release pre id rc st post hr hpre hpost hctl hret hsent =>
-    have hsame : (o.setWritten (Outbound.Step.flushed (.release id rc st)) wr len).Log k l := h.congr rfl rfl
+  | release pre id rc st rs ps post hr hpre hpost hctl hret hsent =>
+    have hsame : (o.setWritten (Outbound.Step.flushed (.release id rc st)) wr len).PLog k l := h.congr rfl rfl
     refine ⟨fun _ => hsame, fun _ => hsame.append_other _ ?_⟩
     simp only [Outbound.done, Outbound.Step.flushed]
     split <;> rfl
@@ -416,11 +418,11 @@ theorem Outbound.Log.setWritten {o : Outbound} {k : Nat} {l : List LogEntry} {st
       exact h.setState_flush hser hr hsent hw hr' rfl rfl
 
 /-- `complete_flush` on the current entry. -/
-theorem Outbound.Log.completeFlush {o : Outbound} {k : Nat} {l : List LogEntry} {step : Outbound.Step}
-    (h : o.Log k l) (hs : o.Slot step) (hst : step.state = .flush) : (o.completeFlush step.flushed).Log k l := by
+theorem Outbound.PLog.completeFlush {o : Outbound} {k : Nat} {l : List LogEntry} {step : Outbound.Step}
+    (h : o.PLog k l) (hs : o.Slot step) (hst : step.state = .flush) : (o.completeFlush step.flushed).PLog k l := by
   cases hs with
   | control a st rest hc hrest hrel hret => exact h.congr rfl rfl
-  | release pre id rc st post hr hpre hpost hctl hret hsent => exact h.congr rfl rfl
+  | release pre id rc st rs ps post hr hpre hpost hctl hret hsent => exact h.congr rfl rfl
   | retained pre e post hr hpre hpost hctl hrel hsent =>
     simp only [Outbound.Step.state] at hst
     have hr' : (o.completeFlush (.retained e.id)).retained = pre ++ { e with state := .sent } :: post := by
@@ -428,37 +430,37 @@ theorem Outbound.Log.completeFlush {o : Outbound} {k : Nat} {l : List LogEntry} 
       rw [modifyFirst_hit _ _ pre _ post (fun x hx => by simp [(hpre x hx).1]) (by simp)]
     exact h.setState_sent hr hsent hst hr' rfl rfl
 
-theorem Outbound.Log.queueControl {o o' : Outbound} {k : Nat} {l : List LogEntry} {a : ControlAction} (h : o.Log k l)
-    (hq : o.queueControl a = some o') : o'.Log k l := by
+theorem Outbound.PLog.queueControl {o o' : Outbound} {k : Nat} {l : List LogEntry} {a : ControlAction} (h : o.PLog k l)
+    (hq : o.queueControl a = some o') : o'.PLog k l := by
   unfold Outbound.queueControl at hq
   split at hq
   · simp at hq
   · simp only [Option.some.injEq] at hq; subst hq; exact h.congr rfl rfl
 
-theorem Outbound.Log.queueRelease {o o' : Outbound} {k : Nat} {l : List LogEntry} {id rc : Nat} (h : o.Log k l)
-    (hq : o.queueRelease id rc = some o') : o'.Log k l := by
+theorem Outbound.PLog.queueRelease {o o' : Outbound} {k : Nat} {l : List LogEntry} {id rc ps : Nat} (h : o.PLog k l)
+    (hq : o.queueRelease id rc ps = some o') : o'.PLog k l := by
   unfold Outbound.queueRelease at hq
   split at hq
   · simp at hq
   · simp only [Option.some.injEq] at hq; subst hq; exact h.congr rfl rfl
 
-theorem Outbound.Log.ackRelease {o : Outbound} {k : Nat} {l : List LogEntry} (id : Nat) (h : o.Log k l) :
-    (o.ackRelease id).1.Log k l := by
+theorem Outbound.PLog.ackRelease {o : Outbound} {k : Nat} {l : List LogEntry} (id : Nat) (h : o.PLog k l) :
+    (o.ackRelease id).1.PLog k l := by
   unfold Outbound.ackRelease
   split
   · exact h.congr rfl rfl
   · exact h
 
-theorem Outbound.Log.ackPacket {o : Outbound} {k : Nat} {l : List LogEntry} (id : Nat) (kind : AckKind) (ha : o.ArenaInv)
-    (h : o.Log k l) : (o.ackPacket id kind).1.Log k l := by
+theorem Outbound.PLog.ackPacket {o : Outbound} {k : Nat} {l : List LogEntry} (id : Nat) (kind : AckKind) (ha : o.ArenaInv)
+    (h : o.PLog k l) : (o.ackPacket id kind).1.PLog k l := by
   obtain ⟨h1, h2⟩ := rows_ackPacket o id kind ha
   exact h.sublist h1 (by rw [h2]; exact Nat.le_refl _)
 
 /-- Handling an inbound packet removes acknowledged packets and queues acknowledgements; the log stays
 in agreement with what remains. -/
-theorem Log_handlePacket (d : SessionData) (r : Runtime) (p : Recv) (k : Nat) (l : List LogEntry) (ha : d.outbound.ArenaInv)
-    (hf : d.outbound.Log k l) : (handlePacket d r p).1.outbound.Log k l := by
-  have hack := fun id kind => Outbound.Log.ackPacket (o := d.outbound) id kind ha hf
+theorem PLog_handlePacket (d : SessionData) (r : Runtime) (p : Recv) (k : Nat) (l : List LogEntry) (ha : d.outbound.ArenaInv)
+    (hf : d.outbound.PLog k l) : (handlePacket d r p).1.outbound.PLog k l := by
+  have hack := fun id kind => Outbound.PLog.ackPacket (o := d.outbound) id kind ha hf
   cases p with
   | connAck sp rc props => exact hf
   | pingResp => exact hf
@@ -482,7 +484,7 @@ theorem Log_handlePacket (d : SessionData) (r : Runtime) (p : Recv) (k : Nat) (l
     simp only [handlePacket]
     split
     · exact hf
-    · split <;> exact Outbound.Log.ackRelease _ hf
+    · split <;> exact Outbound.PLog.ackRelease _ hf
   | pubRec id rs =>
     simp only [handlePacket]
     split
@@ -493,7 +495,7 @@ theorem Log_handlePacket (d : SessionData) (r : Runtime) (p : Recv) (k : Nat) (l
         · split
           · exact hack id .pubRec
           · rename_i o' hq
-            exact Outbound.Log.queueRelease (hack id .pubRec) hq
+            exact Outbound.PLog.queueRelease (hack id .pubRec) hq
     · split
       · split <;> exact hf
       · exact hf
@@ -502,37 +504,37 @@ theorem Log_handlePacket (d : SessionData) (r : Runtime) (p : Recv) (k : Nat) (l
     repeat' split
     all_goals first
       | exact hf
-      | exact Outbound.Log.queueControl hf (by assumption)
+      | exact Outbound.PLog.queueControl hf (by assumption)
   | publish topic id props payload retain qos dup =>
     simp only [handlePacket]
     repeat' split
     all_goals first
       | exact hf
-      | exact Outbound.Log.queueControl hf (by assumption)
+      | exact Outbound.PLog.queueControl hf (by assumption)
 
-theorem Log_handle (s : Session) (p : Recv) (k : Nat) (l : List LogEntry) (ha : s.data.outbound.ArenaInv)
-    (h : s.data.outbound.Log k l) : (s.handle p).1.data.outbound.Log k l := by
-  rw [Session.handle_fst_data]; exact Log_handlePacket _ _ _ _ _ ha h
+theorem PLog_handle (s : Session) (p : Recv) (k : Nat) (l : List LogEntry) (ha : s.data.outbound.ArenaInv)
+    (h : s.data.outbound.PLog k l) : (s.handle p).1.data.outbound.PLog k l := by
+  rw [Session.handle_fst_data]; exact PLog_handlePacket _ _ _ _ _ ha h
 
-theorem Log_queuePing {s s' : Session} {now : Nat} {k : Nat} {l : List LogEntry} (hq : s.queuePing now = .ok s')
-    (h : s.data.outbound.Log k l) : s'.data.outbound.Log k l := by
+theorem PLog_queuePing {s s' : Session} {now : Nat} {k : Nat} {l : List LogEntry} (hq : s.queuePing now = .ok s')
+    (h : s.data.outbound.PLog k l) : s'.data.outbound.PLog k l := by
   rcases Session.queuePing_ok hq with rfl | ⟨o, ho, rfl⟩
   · exact h
   · exact h.queueControl ho
 
-theorem Log_encode {ε : Type} (s : Session) (enc : Nat → (Nat → Nat → Bytes) → Except ε (Nat × Bytes)) {k : Nat}
-    {l : List LogEntry} (ha : s.data.outbound.ArenaInv) (he : EncOk enc) (h : s.data.outbound.Log k l) :
-    (s.encode enc).1.data.outbound.Log k l := by
+theorem PLog_encode {ε : Type} (s : Session) (enc : Nat → (Nat → Nat → Bytes) → Except ε (Nat × Bytes)) {k : Nat}
+    {l : List LogEntry} (ha : s.data.outbound.ArenaInv) (he : EncOk enc) (h : s.data.outbound.PLog k l) :
+    (s.encode enc).1.data.outbound.PLog k l := by
   rw [Session.encode_fst]
   obtain ⟨h1, h2⟩ := rows_encodeAt s.data.outbound enc ha he
   exact h.congr h1 h2
 
 /-- Retaining the packet just encoded: it enters the queue behind everything, with a new serial. -/
-theorem Log_retain {ε : Type} (s s3 : Session) (enc : Nat → (Nat → Nat → Bytes) → Except ε (Nat × Bytes)) {k : Nat}
-    {l : List LogEntry} (ha : s.data.outbound.ArenaInv) (he : EncOk enc) (h : s.data.outbound.Log k l)
+theorem PLog_retain {ε : Type} (s s3 : Session) (enc : Nat → (Nat → Nat → Bytes) → Except ε (Nat × Bytes)) {k : Nat}
+    {l : List LogEntry} (ha : s.data.outbound.ArenaInv) (he : EncOk enc) (h : s.data.outbound.PLog k l)
     (id off len : Nat) (isPub : Bool) (hres : (s.encode enc).2 = .ok (off, len))
-    (hr : (s.encode enc).1.retain id off len isPub = some s3) : s3.data.outbound.Log k l := by
-  have hl2 := Log_encode s enc ha he h
+    (hr : (s.encode enc).1.retain id off len isPub = some s3) : s3.data.outbound.PLog k l := by
+  have hl2 := PLog_encode s enc ha he h
   rw [Session.encode_snd] at hres
   rw [Session.encode_fst] at hr hl2
   obtain ⟨hi, _, _, _, hbl, _, _, _, hpos⟩ := encodeAt_spec s.data.outbound enc ha he
@@ -543,29 +545,449 @@ theorem Log_retain {ε : Type} (s s3 : Session) (enc : Nat → (Nat → Nat → 
   · rename_i o ho
     simp only [Session.setOutbound] at ho
     obtain ⟨r1, r2⟩ := rows_retainPacket _ o id off len hi p1 (by rw [hbl]; exact p2) p3 ho
-    have := Outbound.Log.retain hl2 _ r1 rfl rfl r2
+    have := Outbound.PLog.retain hl2 _ r1 rfl rfl r2
     simp only [Option.some.injEq] at hr; subst hr
     split <;> exact this
 
 
 /-! ### The agreement of log and queue, in terms of the queue entries -/
 
-theorem Outbound.Log.written_entry {o : Outbound} {k : Nat} {l : List LogEntry} (h : o.Log k l) {e : RetainedPacket}
+theorem Outbound.PLog.written_entry {o : Outbound} {k : Nat} {l : List LogEntry} (h : o.PLog k l) {e : RetainedPacket}
     (he : e ∈ o.retained) (hst : e.state = .sent ∨ e.state = .flush) :
     (⟨k, .retained e.ser e.id, slice o.buf e.offset e.len⟩ : LogEntry) ∈ l :=
   h.written (rowOf o.buf e) (List.mem_map.mpr ⟨e, he, rfl⟩) hst
 
-theorem Outbound.Log.unwritten_entry {o : Outbound} {k : Nat} {l : List LogEntry} (h : o.Log k l) {e : RetainedPacket}
-    (he : e ∈ o.retained) {n : Nat} (hst : e.state = .write n) : ∀ s ∈ sers l, s < e.ser :=
+theorem Outbound.PLog.unwritten_entry {o : Outbound} {k : Nat} {l : List LogEntry} (h : o.PLog k l) {e : RetainedPacket}
+    (he : e ∈ o.retained) {n : Nat} (hst : e.state = .write n) : ∀ s ∈ Minimq.sers l, s < e.ser :=
   h.unwritten (rowOf o.buf e) (List.mem_map.mpr ⟨e, he, rfl⟩) (by simp [rowOf, hst, SendState.isWrite])
 
 /-- Along the retained queue: once an entry has been started (anything but "waiting for its first
 byte"), every entry in front of it is sent. -/
-theorem Outbound.Log.ord_entry {o : Outbound} {k : Nat} {l : List LogEntry} (h : o.Log k l) :
+theorem Outbound.PLog.ord_entry {o : Outbound} {k : Nat} {l : List LogEntry} (h : o.PLog k l) :
     o.retained.Pairwise (fun a c => c.state ≠ .write 0 → a.state = .sent) := by
   have ho := h.ord
   simp only [Outbound.rows, List.map_map] at ho
   rw [List.pairwise_map] at ho
   exact ho
+
+
+/-! ## The release queue against the log
+
+The same agreement for PUBREL entries, in terms of the ghost serial `PendingRelease.rser`. -/
+
+/-- The serial of a release entry's log entry. -/
+def LogEntry.rser? (f : LogEntry) : Option Nat :=
+  match f.tag with
+  | .release r _ _ _ => some r
+  | _ => none
+
+/-- The serials of the PUBREL entries in a log, in the order they were written. -/
+def relSers (l : List LogEntry) : List Nat := l.filterMap LogEntry.rser?
+
+theorem relSers_append (l l' : List LogEntry) : relSers (l ++ l') = relSers l ++ relSers l' := by
+  simp [relSers, List.filterMap_append]
+
+/-- The log entry of a release entry on transport `k`: its serial, the serial of the PUBLISH it
+continues, identifier and reason code, and the PUBREL packet. -/
+def relEntry (k : Nat) (e : PendingRelease) : LogEntry :=
+  ⟨k, .release e.rser e.pser e.id e.rc, ((encodePubrel e.id e.rc).toOption).getD []⟩
+
+theorem relEntry_rser (k : Nat) (e : PendingRelease) : (relEntry k e).rser? = some e.rser := rfl
+theorem relEntry_ser (k : Nat) (e : PendingRelease) : (relEntry k e).ser? = none := rfl
+
+/-- The log `l` of the transport with ordinal `k` agrees with the release queue. -/
+structure Outbound.RLog (o : Outbound) (k : Nat) (l : List LogEntry) : Prop where
+  /-- PUBREL packets went out in the order of their serials, none twice. -/
+  sorted : (relSers l).Pairwise (· < ·)
+  below : ∀ s ∈ relSers l, s < o.nextRser
+  /-- A release entry recorded as written (waiting for its flush, or sent) is in the log. -/
+  written : ∀ e ∈ o.release, (e.state = .sent ∨ e.state = .flush) → relEntry k e ∈ l
+  /-- One not yet completely written is not in the log, and everything in the log is older. -/
+  unwritten : ∀ e ∈ o.release, e.state.isWrite = true → ∀ s ∈ relSers l, s < e.rser
+  /-- In front of an entry that has been started every entry is sent. -/
+  ord : (o.release.map (·.state)).Pairwise (fun a b => b ≠ .write 0 → a = .sent)
+
+theorem Outbound.RLog.congr {o o' : Outbound} {k : Nat} {l : List LogEntry} (h : o.RLog k l) (hr : o'.release = o.release)
+    (hn : o'.nextRser = o.nextRser) : o'.RLog k l :=
+  ⟨h.sorted, by rw [hn]; exact h.below, by rw [hr]; exact h.written, by rw [hr]; exact h.unwritten, by rw [hr]; exact h.ord⟩
+
+theorem Outbound.RLog.sublist {o o' : Outbound} {k : Nat} {l : List LogEntry} (h : o.RLog k l)
+    (hr : o'.release.Sublist o.release) (hn : o.nextRser ≤ o'.nextRser) : o'.RLog k l :=
+  ⟨h.sorted, fun s hs => Nat.lt_of_lt_of_le (h.below s hs) hn, fun e hm => h.written e (hr.subset hm),
+   fun e hm => h.unwritten e (hr.subset hm), h.ord.sublist (hr.map _)⟩
+
+theorem Outbound.RLog.append_other {o : Outbound} {k : Nat} {l : List LogEntry} (h : o.RLog k l) (f : LogEntry)
+    (hf : f.rser? = none) : o.RLog k (l ++ [f]) := by
+  have hs : relSers (l ++ [f]) = relSers l := by simp [relSers_append, relSers, hf]
+  exact ⟨by rw [hs]; exact h.sorted, by rw [hs]; exact h.below,
+    fun e hm hst => List.mem_append_left _ (h.written e hm hst), by rw [hs]; exact h.unwritten, h.ord⟩
+
+/-- A new release entry gets a serial above everything in the log. -/
+theorem Outbound.RLog.append_new {o o' : Outbound} {k : Nat} {l : List LogEntry} (h : o.RLog k l) (e : PendingRelease)
+    (hrel : o'.release = o.release ++ [e]) (hser : e.rser = o.nextRser) (hst : e.state = .write 0)
+    (hn : o'.nextRser = o.nextRser + 1) : o'.RLog k l := by
+  refine ⟨h.sorted, fun s hs => by rw [hn]; exact Nat.lt_succ_of_lt (h.below s hs), ?_, ?_, ?_⟩
+  · intro x hx hstx
+    rw [hrel] at hx
+    rcases List.mem_append.mp hx with hm | hm
+    · exact h.written x hm hstx
+    · simp only [List.mem_singleton] at hm; subst hm
+      rw [hst] at hstx; rcases hstx with h1 | h1 <;> cases h1
+  · intro x hx hw s hs
+    rw [hrel] at hx
+    rcases List.mem_append.mp hx with hm | hm
+    · exact h.unwritten x hm hw s hs
+    · simp only [List.mem_singleton] at hm; subst hm
+      rw [hser]; exact h.below s hs
+  · rw [hrel, List.map_append, List.pairwise_append]
+    refine ⟨h.ord, by simp, ?_⟩
+    intro a _ c hc hne
+    simp only [List.map_cons, List.map_nil, List.mem_singleton] at hc
+    subst hc
+    exact absurd hst hne
+
+theorem Outbound.RLog.post_fresh {o : Outbound} {k : Nat} {l : List LogEntry} (h : o.RLog k l)
+    {pre post : List PendingRelease} {e : PendingRelease} (hr : o.release = pre ++ e :: post) (hne : e.state ≠ .sent) :
+    ∀ x ∈ post, x.state = .write 0 := by
+  intro x hx
+  have ho := h.ord
+  simp only [hr, List.map_append, List.map_cons, List.pairwise_append] at ho
+  have := (List.pairwise_cons.mp ho.2.1).1 x.state (List.mem_map.mpr ⟨x, hx, rfl⟩)
+  by_cases hx0 : x.state = .write 0
+  · exact hx0
+  · exact absurd (this hx0) hne
+
+/-- The ordering part after the state of the current entry changed. -/
+theorem rel_ord_of {pre post : List PendingRelease} {e e' : PendingRelease}
+    (ho : ((pre ++ e :: post).map (·.state)).Pairwise (fun a b => b ≠ SendState.write 0 → a = .sent))
+    (hsent : ∀ x ∈ pre, x.state = .sent) (hpost : e'.state = .sent ∨ ∀ x ∈ post, x.state = .write 0) :
+    ((pre ++ e' :: post).map (·.state)).Pairwise (fun a b => b ≠ SendState.write 0 → a = .sent) := by
+  simp only [List.map_append, List.map_cons, List.pairwise_append, List.pairwise_cons] at ho ⊢
+  refine ⟨ho.1, ⟨?_, ho.2.1.2⟩, ?_⟩
+  · intro c hc hne
+    rcases hpost with h1 | h1
+    · exact h1
+    · obtain ⟨x, hx, rfl⟩ := List.mem_map.mp hc
+      exact absurd (h1 x hx) hne
+  · intro a ha c _ _
+    obtain ⟨x, hx, rfl⟩ := List.mem_map.mp ha
+    exact hsent x hx
+
+theorem Outbound.RLog.setState_write {o o' : Outbound} {k : Nat} {l : List LogEntry} (h : o.RLog k l)
+    {pre post : List PendingRelease} {e : PendingRelease} (hr : o.release = pre ++ e :: post)
+    (hsent : ∀ x ∈ pre, x.state = .sent) (hw : e.state.isWrite = true) (n : Nat)
+    (hr' : o'.release = pre ++ { e with state := .write n } :: post) (hn : o'.nextRser = o.nextRser) :
+    o'.RLog k l := by
+  have hpost := h.post_fresh hr (by intro hs; rw [hs] at hw; cases hw)
+  refine ⟨h.sorted, by rw [hn]; exact h.below, ?_, ?_, ?_⟩
+  · intro x hm hst
+    rw [hr'] at hm
+    rcases List.mem_append.mp hm with hm | hm
+    · exact h.written x (by rw [hr]; exact List.mem_append_left _ hm) hst
+    · rcases List.mem_cons.mp hm with rfl | hm
+      · rcases hst with h1 | h1 <;> cases h1
+      · exact h.written x (by rw [hr]; exact List.mem_append_right _ (List.mem_cons_of_mem _ hm)) hst
+  · intro x hm hwr s hs
+    rw [hr'] at hm
+    rcases List.mem_append.mp hm with hm | hm
+    · exact h.unwritten x (by rw [hr]; exact List.mem_append_left _ hm) hwr s hs
+    · rcases List.mem_cons.mp hm with rfl | hm
+      · exact h.unwritten e (by rw [hr]; simp) hw s hs
+      · exact h.unwritten x (by rw [hr]; exact List.mem_append_right _ (List.mem_cons_of_mem _ hm)) hwr s hs
+  · rw [hr']
+    exact rel_ord_of (by rw [← hr]; exact h.ord) hsent (Or.inr hpost)
+
+theorem Outbound.RLog.setState_flush {o o' : Outbound} {k : Nat} {l : List LogEntry} (h : o.RLog k l) (hinv : o.RelInv)
+    {pre post : List PendingRelease} {e : PendingRelease} (hr : o.release = pre ++ e :: post)
+    (hsent : ∀ x ∈ pre, x.state = .sent) (hw : e.state.isWrite = true)
+    (hr' : o'.release = pre ++ { e with state := .flush } :: post) (hn : o'.nextRser = o.nextRser) :
+    o'.RLog k (l ++ [relEntry k e]) := by
+  have hpost := h.post_fresh hr (by intro hs; rw [hs] at hw; cases hw)
+  have hs : relSers (l ++ [relEntry k e]) = relSers l ++ [e.rser] := by
+    simp [relSers_append, relSers, relEntry_rser]
+  have hbelow_e : ∀ s ∈ relSers l, s < e.rser := h.unwritten e (by rw [hr]; simp) hw
+  have hinc := hinv.inc
+  simp only [Outbound.rsers, hr, List.map_append, List.map_cons, List.pairwise_append] at hinc
+  have hpost_ser : ∀ x ∈ post, e.rser < x.rser := fun x hx =>
+    (List.pairwise_cons.mp hinc.2.1).1 x.rser (List.mem_map.mpr ⟨x, hx, rfl⟩)
+  refine ⟨?_, ?_, ?_, ?_, ?_⟩
+  · rw [hs, List.pairwise_append]
+    exact ⟨h.sorted, by simp, fun a ha c hc => by simp only [List.mem_singleton] at hc; subst hc; exact hbelow_e a ha⟩
+  · intro s hm
+    rw [hs] at hm
+    rcases List.mem_append.mp hm with hm | hm
+    · rw [hn]; exact h.below s hm
+    · simp only [List.mem_singleton] at hm; subst hm
+      rw [hn]; exact hinv.lt e (by rw [hr]; simp)
+  · intro x hm hst
+    rw [hr'] at hm
+    rcases List.mem_append.mp hm with hm | hm
+    · exact List.mem_append_left _ (h.written x (by rw [hr]; exact List.mem_append_left _ hm) hst)
+    · rcases List.mem_cons.mp hm with rfl | hm
+      · exact List.mem_append_right _ (by simp [relEntry])
+      · exact List.mem_append_left _
+          (h.written x (by rw [hr]; exact List.mem_append_right _ (List.mem_cons_of_mem _ hm)) hst)
+  · intro x hm hwr s hsm
+    rw [hr'] at hm
+    rw [hs] at hsm
+    rcases List.mem_append.mp hm with hm | hm
+    · rw [hsent x hm] at hwr; cases hwr
+    · rcases List.mem_cons.mp hm with rfl | hm
+      · cases hwr
+      · rcases List.mem_append.mp hsm with hsm | hsm
+        · exact h.unwritten x (by rw [hr]; exact List.mem_append_right _ (List.mem_cons_of_mem _ hm)) hwr s hsm
+        · simp only [List.mem_singleton] at hsm; subst hsm
+          exact hpost_ser x hm
+  · rw [hr']
+    exact rel_ord_of (by rw [← hr]; exact h.ord) hsent (Or.inr hpost)
+
+theorem Outbound.RLog.setState_sent {o o' : Outbound} {k : Nat} {l : List LogEntry} (h : o.RLog k l)
+    {pre post : List PendingRelease} {e : PendingRelease} (hr : o.release = pre ++ e :: post)
+    (hsent : ∀ x ∈ pre, x.state = .sent) (hf : e.state = .flush)
+    (hr' : o'.release = pre ++ { e with state := .sent } :: post) (hn : o'.nextRser = o.nextRser) :
+    o'.RLog k l := by
+  refine ⟨h.sorted, by rw [hn]; exact h.below, ?_, ?_, ?_⟩
+  · intro x hm hst
+    rw [hr'] at hm
+    rcases List.mem_append.mp hm with hm | hm
+    · exact h.written x (by rw [hr]; exact List.mem_append_left _ hm) hst
+    · rcases List.mem_cons.mp hm with rfl | hm
+      · exact h.written e (by rw [hr]; simp) (Or.inr hf)
+      · exact h.written x (by rw [hr]; exact List.mem_append_right _ (List.mem_cons_of_mem _ hm)) hst
+  · intro x hm hwr s hs
+    rw [hr'] at hm
+    rcases List.mem_append.mp hm with hm | hm
+    · exact h.unwritten x (by rw [hr]; exact List.mem_append_left _ hm) hwr s hs
+    · rcases List.mem_cons.mp hm with rfl | hm
+      · cases hwr
+      · exact h.unwritten x (by rw [hr]; exact List.mem_append_right _ (List.mem_cons_of_mem _ hm)) hwr s hs
+  · rw [hr']
+    exact rel_ord_of (by rw [← hr]; exact h.ord) hsent (Or.inl rfl)
+
+theorem RLog_of_allFresh (o : Outbound) (k : Nat) (h : ∀ e ∈ o.release, e.state = .write 0) : o.RLog k [] := by
+  refine ⟨by simp [relSers], by simp [relSers], ?_, by simp [relSers], ?_⟩
+  · intro e he hst
+    rw [h e he] at hst
+    rcases hst with h1 | h1 <;> cases h1
+  · have : ∀ (l : List PendingRelease), (∀ e ∈ l, e.state = .write 0) →
+        (l.map (·.state)).Pairwise (fun a b => b ≠ SendState.write 0 → a = .sent) := by
+      intro l
+      induction l with
+      | nil => intro _; exact List.Pairwise.nil
+      | cons x xs ih =>
+        intro hl
+        simp only [List.map_cons, List.pairwise_cons]
+        refine ⟨?_, ih (fun e he => hl e (by simp [he]))⟩
+        intro c hc hne
+        obtain ⟨y, hy, rfl⟩ := List.mem_map.mp hc
+        exact absurd (hl y (by simp [hy])) hne
+    exact this _ h
+
+/-! ## Both queues -/
+
+/-- In a log (of one transport) the retained packets and the PUBREL packets each went out in the order
+of their serials, none twice. -/
+def LogSorted (l : List LogEntry) : Prop := (Minimq.sers l).Pairwise (· < ·) ∧ (relSers l).Pairwise (· < ·)
+
+theorem LogSorted.nil : LogSorted [] := ⟨by simp [Minimq.sers], by simp [relSers]⟩
+
+/-- The log `l` of the transport with ordinal `k` agrees with the retained queue and with the release queue. -/
+structure Outbound.Log (o : Outbound) (k : Nat) (l : List LogEntry) : Prop where
+  p : o.PLog k l
+  r : o.RLog k l
+
+theorem Outbound.Log.sorted {o : Outbound} {k : Nat} {l : List LogEntry} (h : o.Log k l) : LogSorted l := ⟨h.p.sorted, h.r.sorted⟩
+
+theorem Log_of_allFresh (o : Outbound) (k : Nat) (h1 : ∀ e ∈ o.retained, e.state = .write 0)
+    (h2 : ∀ e ∈ o.release, e.state = .write 0) : o.Log k [] :=
+  ⟨PLog_of_allFresh o k h1, RLog_of_allFresh o k h2⟩
+
+theorem done_release {o : Outbound} {pre post : List PendingRelease} {e : PendingRelease} (k : Nat)
+    (hr : o.release = pre ++ e :: post) (hpre : ∀ x ∈ pre, x.id ≠ e.id) :
+    o.done k (.release e.id) = relEntry k e := by
+  have hf : o.release.find? (fun x => x.id == e.id) = some e := by
+    rw [hr]; exact find?_hit _ pre _ post (fun x hx => by simp [hpre x hx]) (by simp)
+  simp [Outbound.done, hf, relEntry]
+
+theorem done_ser_none_of_release (o : Outbound) (k id : Nat) : (o.done k (.release id)).ser? = none := by
+  simp only [Outbound.done]
+  split <;> rfl
+
+theorem done_rser_none_of_retained (o : Outbound) (k id : Nat) : (o.done k (.retained id)).rser? = none := by
+  simp only [Outbound.done]
+  split <;> rfl
+
+/-- `set_written` on the current entry: the log stays in agreement with both queues; when the entry is
+completely written, with the entry recorded. -/
+theorem Outbound.Log.setWritten {o : Outbound} {k : Nat} {l : List LogEntry} {step : Outbound.Step} {j : Nat}
+    (h : o.Log k l) (hser : o.SerInv) (hrel : o.RelInv) (hs : o.Slot step) (hst : step.state = .write j) (wr len : Nat) :
+    (wr < len → (o.setWritten step.flushed wr len).Log k l) ∧
+    (len ≤ wr → (o.setWritten step.flushed wr len).Log k (l ++ [o.done k step.flushed])) := by
+  have hp := h.p.setWritten hser hs hst wr len
+  cases hs with
+  | control a st rest hc hrest hrel' hret =>
+    have hsame : (o.setWritten (Outbound.Step.flushed (.control a st)) wr len).RLog k l := h.r.congr rfl rfl
+    exact ⟨fun hlt => ⟨hp.1 hlt, hsame⟩,
+      fun hge => ⟨hp.2 hge, hsame.append_other _ (by simp [Outbound.done, Outbound.Step.flushed, LogEntry.rser?])⟩⟩
+  | release pre id rc st rs ps post hr hpre hpost hctl hret hsent =>
+    simp only [Outbound.Step.state] at hst
+    have hw : (⟨id, rc, st, rs, ps⟩ : PendingRelease).state.isWrite = true := by rw [hst]; rfl
+    have hr' : (o.setWritten (.release id) wr len).release =
+        pre ++ ⟨id, rc, SendState.afterWrite wr len, rs, ps⟩ :: post := by
+      simp only [Outbound.setWritten, setReleaseWritten, hr]
+      rw [modifyFirst_hit _ _ pre _ post (fun x hx => by simp [(hpre x hx).1]) (by simp)]
+    constructor
+    · intro hlt
+      refine ⟨hp.1 hlt, ?_⟩
+      rw [afterWrite_lt hlt] at hr'
+      exact h.r.setState_write hr hsent hw wr hr' rfl
+    · intro hge
+      refine ⟨hp.2 hge, ?_⟩
+      rw [afterWrite_ge hge] at hr'
+      simp only [Outbound.Step.flushed]
+      rw [done_release (e := ⟨id, rc, st, rs, ps⟩) k hr (fun x hx => (hpre x hx).1)]
+      exact h.r.setState_flush hrel hr hsent hw hr' rfl
+  | retained pre e post hr hpre hpost hctl hrel' hsent =>
+    have hsame : (o.setWritten (Outbound.Step.flushed (.retained e.id e.offset e.len e.state)) wr len).RLog k l :=
+      h.r.congr rfl rfl
+    exact ⟨fun hlt => ⟨hp.1 hlt, hsame⟩,
+      fun hge => ⟨hp.2 hge, hsame.append_other _ (done_rser_none_of_retained _ _ _)⟩⟩
+
+theorem Outbound.Log.completeFlush {o : Outbound} {k : Nat} {l : List LogEntry} {step : Outbound.Step}
+    (h : o.Log k l) (hs : o.Slot step) (hst : step.state = .flush) : (o.completeFlush step.flushed).Log k l := by
+  refine ⟨h.p.completeFlush hs hst, ?_⟩
+  cases hs with
+  | control a st rest hc hrest hrel hret => exact h.r.congr rfl rfl
+  | release pre id rc st rs ps post hr hpre hpost hctl hret hsent =>
+    simp only [Outbound.Step.state] at hst
+    have hr' : (o.completeFlush (.release id)).release = pre ++ ⟨id, rc, .sent, rs, ps⟩ :: post := by
+      simp only [Outbound.completeFlush, flushRelease, hr]
+      rw [modifyFirst_hit _ _ pre _ post (fun x hx => by simp [(hpre x hx).1]) (by simp)]
+    exact h.r.setState_sent (e := ⟨id, rc, st, rs, ps⟩) hr hsent hst hr' rfl
+  | retained pre e post hr hpre hpost hctl hrel hsent => exact h.r.congr rfl rfl
+
+theorem Outbound.RLog.queueControl {o o' : Outbound} {k : Nat} {l : List LogEntry} {a : ControlAction} (h : o.RLog k l)
+    (hq : o.queueControl a = some o') : o'.RLog k l := by
+  unfold Outbound.queueControl at hq
+  split at hq
+  · simp at hq
+  · simp only [Option.some.injEq] at hq; subst hq; exact h.congr rfl rfl
+
+theorem Outbound.RLog.queueRelease {o o' : Outbound} {k : Nat} {l : List LogEntry} {id rc ps : Nat} (h : o.RLog k l)
+    (hq : o.queueRelease id rc ps = some o') : o'.RLog k l := by
+  unfold Outbound.queueRelease at hq
+  split at hq
+  · simp at hq
+  · simp only [Option.some.injEq] at hq; subst hq
+    exact h.append_new _ rfl rfl rfl rfl
+
+theorem Outbound.RLog.ackRelease {o : Outbound} {k : Nat} {l : List LogEntry} (id : Nat) (h : o.RLog k l) :
+    (o.ackRelease id).1.RLog k l := by
+  unfold Outbound.ackRelease
+  split
+  · exact h.sublist (removeFirst_sublist _ _) (Nat.le_refl _)
+  · exact h
+
+theorem Outbound.RLog.ackPacket {o : Outbound} {k : Nat} {l : List LogEntry} (id : Nat) (kind : AckKind)
+    (h : o.RLog k l) : (o.ackPacket id kind).1.RLog k l :=
+  h.congr (ackPacket_frame o id kind).2.1 (ackPacket_nextRser o id kind)
+
+theorem RLog_handlePacket (d : SessionData) (r : Runtime) (p : Recv) (k : Nat) (l : List LogEntry)
+    (hf : d.outbound.RLog k l) : (handlePacket d r p).1.outbound.RLog k l := by
+  have hack := fun id kind => Outbound.RLog.ackPacket (o := d.outbound) id kind hf
+  cases p with
+  | connAck sp rc props => exact hf
+  | pingResp => exact hf
+  | disconnect rc props => exact hf
+  | subAck id props codes =>
+    simp only [handlePacket]
+    split
+    · exact hf
+    · split <;> exact hack id .subAck
+  | unsubAck id props codes =>
+    simp only [handlePacket]
+    split
+    · exact hf
+    · split <;> exact hack id .unsubAck
+  | pubAck id rs =>
+    simp only [handlePacket]
+    split
+    · exact hf
+    · split <;> exact hack id .pubAck
+  | pubComp id rs =>
+    simp only [handlePacket]
+    split
+    · exact hf
+    · split <;> exact Outbound.RLog.ackRelease _ hf
+  | pubRec id rs =>
+    simp only [handlePacket]
+    split
+    · split
+      · exact hack id .pubRec
+      · split
+        · exact hack id .pubRec
+        · split
+          · exact hack id .pubRec
+          · rename_i o' hq
+            exact Outbound.RLog.queueRelease (hack id .pubRec) hq
+    · split
+      · split <;> exact hf
+      · exact hf
+  | pubRel id rs =>
+    simp only [handlePacket]
+    repeat' split
+    all_goals first
+      | exact hf
+      | exact Outbound.RLog.queueControl hf (by assumption)
+  | publish topic id props payload retain qos dup =>
+    simp only [handlePacket]
+    repeat' split
+    all_goals first
+      | exact hf
+      | exact Outbound.RLog.queueControl hf (by assumption)
+
+theorem Log_handle (s : Session) (p : Recv) (k : Nat) (l : List LogEntry) (ha : s.data.outbound.ArenaInv)
+    (h : s.data.outbound.Log k l) : (s.handle p).1.data.outbound.Log k l :=
+  ⟨PLog_handle s p k l ha h.p, by rw [Session.handle_fst_data]; exact RLog_handlePacket _ _ _ _ _ h.r⟩
+
+theorem Log_queuePing {s s' : Session} {now : Nat} {k : Nat} {l : List LogEntry} (hq : s.queuePing now = .ok s')
+    (h : s.data.outbound.Log k l) : s'.data.outbound.Log k l := by
+  refine ⟨PLog_queuePing hq h.p, ?_⟩
+  rcases Session.queuePing_ok hq with rfl | ⟨o, ho, rfl⟩
+  · exact h.r
+  · exact h.r.queueControl ho
+
+theorem Log_encode {ε : Type} (s : Session) (enc : Nat → (Nat → Nat → Bytes) → Except ε (Nat × Bytes)) {k : Nat}
+    {l : List LogEntry} (ha : s.data.outbound.ArenaInv) (he : EncOk enc) (h : s.data.outbound.Log k l) :
+    (s.encode enc).1.data.outbound.Log k l := by
+  refine ⟨PLog_encode s enc ha he h.p, ?_⟩
+  rw [Session.encode_fst]
+  exact h.r.congr (encodeAt_frame _ enc).2.1 (encodeAt_nextRser _ enc)
+
+theorem Log_retain {ε : Type} (s s3 : Session) (enc : Nat → (Nat → Nat → Bytes) → Except ε (Nat × Bytes)) {k : Nat}
+    {l : List LogEntry} (ha : s.data.outbound.ArenaInv) (he : EncOk enc) (h : s.data.outbound.Log k l)
+    (id off len : Nat) (isPub : Bool) (hres : (s.encode enc).2 = .ok (off, len))
+    (hr : (s.encode enc).1.retain id off len isPub = some s3) : s3.data.outbound.Log k l := by
+  refine ⟨PLog_retain s s3 enc ha he h.p id off len isPub hres hr, ?_⟩
+  have h2 := (Log_encode s enc ha he h).r
+  unfold Session.retain at hr
+  split at hr
+  · simp at hr
+  · rename_i o ho
+    obtain ⟨_, rfl⟩ := retainPacket_some ho
+    simp only [Option.some.injEq] at hr; subst hr
+    split <;> exact h2.congr rfl rfl
+
+/-! ### The agreement of log and release queue, in terms of the queue entries -/
+
+theorem Outbound.RLog.ord_entry {o : Outbound} {k : Nat} {l : List LogEntry} (h : o.RLog k l) :
+    o.release.Pairwise (fun a c => c.state ≠ .write 0 → a.state = .sent) := by
+  have ho := h.ord
+  rw [List.pairwise_map] at ho
+  exact ho
+
+theorem Outbound.RLog.unwritten_entry {o : Outbound} {k : Nat} {l : List LogEntry} (h : o.RLog k l) {e : PendingRelease}
+    (he : e ∈ o.release) {n : Nat} (hst : e.state = .write n) : ∀ s ∈ relSers l, s < e.rser :=
+  h.unwritten e he (by simp [hst, SendState.isWrite])
 
 end Minimq
